@@ -1,5 +1,5 @@
 (* Lemmas about the supply-series models of Model/Series.v (C08, C09). *)
-From Coq Require Import QArith Lqa Lia List Bool Arith ZArith.
+From Coq Require Import QArith Lqa Lia List Bool Arith ZArith String.
 From Allfed Require Import Base.QSeries Model.Series.
 Import ListNotations.
 Open Scope Q_scope.
@@ -880,4 +880,333 @@ Lemma seaweed_growth_nth : forall n daily m, (m < n)%nat -> (m < List.length dai
   nthq (seaweed_growth n daily) m = growth_factor (nthq daily m).
 Proof.
   intros n daily m Hn Hl. unfold seaweed_growth. rewrite nthq_firstn by exact Hn. apply nthq_map. exact Hl.
+Qed.
+
+(* ================================================================ extension: year-1 ratio as the documented function *)
+Definition harvest_before_may (seas : list Q) (o : option Q) : Q :=
+  match o with Some v => v | None => qsum (firstn 4 seas) end.
+
+(* nothing if the year-1 ratio does not exceed what was harvested before May; the full normal yield if less than a
+   quarter of the harvest falls after May; otherwise the remaining ratio spread over the remaining harvest share *)
+Definition year1_doc (r1 hbm : Q) : Q :=
+  if Qle_bool r1 hbm then 0
+  else if Qlt_bool (1 - hbm) (1 # 4) then 1
+  else (r1 - hbm) / (1 - hbm).
+
+Lemma Qle_bool_false : forall a b, Qle_bool a b = false <-> b < a.
+Proof.
+  intros a b. split; intro H.
+  - apply Qnot_le_lt. intro L. apply Qle_bool_iff in L. congruence.
+  - destruct (Qle_bool a b) eqn:E; [|reflexivity]. apply Qle_bool_iff in E. lra.
+Qed.
+
+Lemma year1_ratio_doc : forall r1 seas o, year1_ratio r1 seas o == year1_doc r1 (harvest_before_may seas o).
+Proof.
+  intros r1 seas o. unfold year1_ratio, year1_doc. cbv zeta. fold (harvest_before_may seas o).
+  set (hbm := harvest_before_may seas o).
+  destruct (Qlt_bool (r1 - hbm) 0) eqn:E1.
+  - apply Qlt_bool_iff in E1. replace (Qlt_bool 0 0) with false by reflexivity.
+    replace (Qle_bool r1 hbm) with true by (symmetry; apply Qle_bool_iff; lra). reflexivity.
+  - apply Qlt_bool_false in E1. destruct (Qlt_bool 0 (r1 - hbm)) eqn:E2.
+    + apply Qlt_bool_iff in E2. replace (Qle_bool r1 hbm) with false by (symmetry; apply Qle_bool_false; lra). reflexivity.
+    + apply Qlt_bool_false in E2. replace (Qle_bool r1 hbm) with true by (symmetry; apply Qle_bool_iff; lra). reflexivity.
+Qed.
+
+Lemma qsum_cons : forall x l, qsum (x :: l) == x + qsum l.
+Proof. intros. change (qsum (x :: l)) with (Qred (x + qsum l)). apply Qred_correct. Qed.
+
+Lemma harvest_before_may_default : forall seas, List.length seas = 12%nat ->
+  harvest_before_may seas None == nthq seas 0 + nthq seas 1 + nthq seas 2 + nthq seas 3.
+Proof.
+  intros seas H. do 12 (destruct seas as [|? seas]; [discriminate|]).
+  unfold harvest_before_may. cbn [firstn]. rewrite !qsum_cons. unfold nthq; simpl. ring.
+Qed.
+
+Lemma year1_doc_range : forall r1 hbm, 0 <= hbm -> hbm <= 1 -> r1 <= 1 ->
+  0 <= year1_doc r1 hbm /\ year1_doc r1 hbm <= 1.
+Proof.
+  intros r1 hbm H0 H1 Hr. unfold year1_doc.
+  destruct (Qle_bool r1 hbm) eqn:E1; [lra|]. apply Qle_bool_false in E1.
+  destruct (Qlt_bool (1 - hbm) (1 # 4)) eqn:E2; [lra|]. apply Qlt_bool_false in E2.
+  split; [apply Qle_shift_div_l; lra|apply Qle_shift_div_r; lra].
+Qed.
+
+(* in the proportional branch the year-1 ratio lies on the same side of 1 as the annual ratio, and beyond it *)
+Lemma year1_doc_vs_annual : forall r1 hbm, 0 <= hbm -> hbm < r1 -> 1 # 4 <= 1 - hbm ->
+  (r1 <= 1 -> year1_doc r1 hbm <= r1) /\ (1 <= r1 -> r1 <= year1_doc r1 hbm).
+Proof.
+  intros r1 hbm H0 Hr Hf. unfold year1_doc.
+  replace (Qle_bool r1 hbm) with false by (symmetry; apply Qle_bool_false; exact Hr).
+  replace (Qlt_bool (1 - hbm) (1 # 4)) with false by (symmetry; apply Qlt_bool_false; exact Hf).
+  split; intro H.
+  - apply Qle_shift_div_r; [lra|]. nra.
+  - apply Qle_shift_div_l; [lra|]. nra.
+Qed.
+
+(* the four special cases *)
+Lemma country_hbm_cases :
+  country_hbm "ZAF"%string = Some 1 /\ country_hbm "JPN"%string = Some 0 /\ country_hbm "PRK"%string = Some 0 /\ country_hbm "KOR"%string = Some 0 /\
+  country_hbm "ARG"%string = None /\ country_hbm "WOR"%string = None.
+Proof. repeat split; reflexivity. Qed.
+
+Lemma year1_all_before_may : forall r1, year1_doc r1 1 == if Qle_bool r1 1 then 0 else 1.
+Proof. intro r1. unfold year1_doc. destruct (Qle_bool r1 1); reflexivity. Qed.
+
+Lemma year1_none_before_may : forall r1, year1_doc r1 0 == if Qle_bool r1 0 then 0 else r1.
+Proof.
+  intro r1. unfold year1_doc. destruct (Qle_bool r1 0); [reflexivity|].
+  replace (Qlt_bool (1 - 0) (1 # 4)) with false by reflexivity. field.
+Qed.
+
+Lemma clamp0_proper : forall a b, a == b -> clamp0 a == clamp0 b.
+Proof.
+  intros a b H. unfold clamp0. destruct (Qle_bool a 0) eqn:E1; destruct (Qle_bool b 0) eqn:E2; try lra.
+  - apply Qle_bool_iff in E1. apply Qle_bool_false in E2. lra.
+  - apply Qle_bool_false in E1. apply Qle_bool_iff in E2. lra.
+Qed.
+
+Lemma norel_closed_form_doc : forall c m,
+  List.length (cseas c) = 12%nat -> List.length (crs c) = 9%nat -> (1 <= cstart c <= 12)%nat ->
+  (m < cN c)%nat -> (cN c <= 120)%nat ->
+  nthq (norel_grown c) m ==
+  cbase c * (1 - seed_percent / 100) * nthq (cseas c) ((m + (cstart c - 1)) mod 12) * 4000000 / 1000000000
+  * clamp0 (if (m <? 8)%nat then year1_doc (cr1 c) (harvest_before_may (cseas c) (chbm c))
+            else nthq (crs c) (year_of m - 1)).
+Proof.
+  intros c m Hl Hr Hs Hm HN. rewrite (norel_closed_form c m) by assumption.
+  apply Qmult_comp; [reflexivity|]. unfold year_of.
+  destruct (m <? 8)%nat eqn:E.
+  - apply clamp0_proper. unfold nthq at 1. simpl. unfold year1. apply year1_ratio_doc.
+  - apply clamp0_proper. destruct (m <? 104)%nat; unfold nthq; simpl; rewrite ?Nat.sub_0_r; reflexivity.
+Qed.
+
+(* ================================================================ extension: seaweed built area is non-decreasing *)
+Definition cap (mx x : Q) : Q := if Qlt_bool mx x then mx else x.
+Definition built_x (d : nat) (nf : Q) (m : nat) : Q :=
+  if (m <? d)%nat then seaweed_init_area nf
+  else seaweed_init_area nf + qnat (m - d) * (seaweed_new_area_global * nf).
+
+Lemma cap_mono : forall mx x y, x <= y -> cap mx x <= cap mx y.
+Proof.
+  intros mx x y H. unfold cap. destruct (Qlt_bool mx x) eqn:E1; destruct (Qlt_bool mx y) eqn:E2;
+  try apply Qlt_bool_iff in E1; try apply Qlt_bool_false in E1; try apply Qlt_bool_iff in E2; try apply Qlt_bool_false in E2; lra.
+Qed.
+
+Lemma cap_le : forall mx x, cap mx x <= mx.
+Proof. intros. unfold cap. destruct (Qlt_bool mx x) eqn:E; [lra|apply Qlt_bool_false in E; exact E]. Qed.
+
+Lemma built_area_nth : forall n d nf mf m, (m < n)%nat ->
+  nthq (seaweed_built_area true n d nf mf) m == cap (seaweed_max_area mf) (built_x d nf m).
+Proof.
+  intros n d nf mf m Hm. unfold built_x, cap. destruct (Nat.ltb_spec m d) as [L|L].
+  - apply built_area_before_delay; assumption.
+  - rewrite built_area_after_delay by assumption. reflexivity.
+Qed.
+
+Lemma built_x_mono : forall d nf i j, 0 <= nf -> (i <= j)%nat -> built_x d nf i <= built_x d nf j.
+Proof.
+  intros d nf i j Hn Hij. unfold built_x.
+  assert (P : 0 <= seaweed_new_area_global * nf).
+  { apply Qmult_le_0_compat; [unfold seaweed_new_area_global, Qle; simpl; lia|exact Hn]. }
+  set (per := seaweed_new_area_global * nf) in *. clearbody per.
+  destruct (Nat.ltb_spec i d) as [L1|L1]; destruct (Nat.ltb_spec j d) as [L2|L2]; try lia.
+  - lra.
+  - pose proof (qnat_nonneg (j - d)). nra.
+  - assert (qnat (i - d) <= qnat (j - d)) by (apply qnat_le; lia). nra.
+Qed.
+
+Lemma built_area_monotone : forall n d nf mf i j, 0 <= nf -> (i <= j)%nat -> (j < n)%nat ->
+  nthq (seaweed_built_area true n d nf mf) i <= nthq (seaweed_built_area true n d nf mf) j.
+Proof.
+  intros n d nf mf i j Hn Hij Hj. rewrite !built_area_nth by lia. apply cap_mono. apply built_x_mono; assumption.
+Qed.
+
+(* without seaweed the area stays at its (capped) initial value *)
+Lemma built_area_off_nth : forall n d nf mf m, (n <= 1000)%nat -> (m < n)%nat ->
+  nthq (seaweed_built_area false n d nf mf) m == cap (seaweed_max_area mf) (seaweed_init_area nf).
+Proof.
+  intros n d nf mf m Hn Hm. unfold seaweed_built_area. cbv zeta.
+  rewrite nthq_firstn by exact Hm.
+  rewrite nthq_map by (rewrite app_length, rep_length, linspace_length; lia).
+  rewrite nthq_app_l by (rewrite rep_length; lia). rewrite rep_nth by lia. reflexivity.
+Qed.
+
+(* ================================================================ extension: fat and protein series *)
+Lemma wastefactor_nonneg : forall w, 0 <= w -> w <= 100 -> 0 <= 1 - w / 100.
+Proof. intros w H0 H1. assert (w / 100 <= 1) by (apply Qle_shift_div_r; lra). lra. Qed.
+
+Lemma og_fraction_nonneg : forall c nb, 0 <= cbase c -> 0 <= nb -> 0 <= og_fraction c nb.
+Proof.
+  intros c nb Hb Hn. unfold og_fraction. rewrite Qred_correct. destruct (Qeq_bool (annual_yield c) 0) eqn:E; [lra|].
+  assert (A : 0 <= annual_yield c).
+  { unfold annual_yield. rewrite Qred_correct. apply Qmult_le_0_compat; [exact Hb|unfold seed_percent, Qle; simpl; lia]. }
+  assert (Ne : ~ annual_yield c == 0) by (intro Z; apply Qeq_bool_iff in Z; congruence).
+  assert (P : 0 < annual_yield c * 4000000 / 1000000000) by (apply Qlt_shift_div_l; lra).
+  apply Qle_shift_div_l; [exact P|]. assert (0 <= nb / 1000) by (apply Qle_shift_div_l; lra). lra.
+Qed.
+
+Lemma og_fraction_homogeneous : forall c nb k, og_fraction c (k * nb) == k * og_fraction c nb.
+Proof.
+  intros. unfold og_fraction. rewrite !Qred_correct. destruct (Qeq_bool (annual_yield c) 0) eqn:E; [ring|].
+  field. intro Z. apply Qeq_bool_iff in Z. congruence.
+Qed.
+
+Section Nutrients.
+  Variable pw : Q -> Q -> Q.
+  Hypothesis pw_ge : forall x e, 0 <= x -> x <= 1 -> 0 < e -> e <= 1 -> x <= pw x e.
+  Hypothesis pw_le1 : forall x e, 0 <= x -> x <= 1 -> 0 < e -> e <= 1 -> pw x e <= 1.
+
+  Lemma production_nonneg : forall c g m,
+    all_nonneg (months_cycle c) -> exp_ok c -> 1 <= carea c -> (m < cN c)%nat ->
+    (gadd g = true -> 42 <= cN c)%nat -> 0 <= total_crop_area g -> 0 <= gmult g -> gmult g <= 1 -> waste_ok c ->
+    0 <= nthq (outdoor_production pw c g) m.
+  Proof.
+    intros c g m Hc He Ha Hm Hg Ht H0 H1 [W0 W1]. destruct (cadd c) eqn:Hadd.
+    - rewrite (outdoor_production_nth pw c g m Hadd Hm). rewrite (greenhouse_fraction_nth (cN c) g m Hg Hm).
+      destruct (frac_spec_range g m Ht H0 H1) as [F0 F1].
+      pose proof (wastefactor_nonneg (cwd c) W0 W1) as W.
+      assert (G : 0 <= grown_on_land pw c m).
+      { unfold grown_on_land. pose proof (norel_nonneg c Hc m) as Z.
+        destruct (crot c && (chd c + crotdelay c <=? m)%nat); [|exact Z].
+        apply Qle_trans with (nthq (norel_grown c) m); [exact Z|]. apply (grown_ge_norel pw pw_ge); assumption. }
+      apply Qmult_le_0_compat; [|exact W]. apply Qmult_le_0_compat; [exact G|lra].
+    - rewrite outdoor_production_off by exact Hadd. lra.
+  Qed.
+
+  Lemma outdoor_nutrient_length : forall c g nb, List.length (outdoor_nutrient pw c g nb) = cN c.
+  Proof. intros. unfold outdoor_nutrient. cbv zeta. rewrite map_length. apply crops_produced_length. Qed.
+
+  (* fat / protein of a month = the crop fraction times that month's kcals *)
+  Lemma outdoor_nutrient_nth : forall c g nb m, (m < cN c)%nat ->
+    nthq (outdoor_nutrient pw c g nb) m == og_fraction c nb * nthq (outdoor_production pw c g) m.
+  Proof.
+    intros c g nb m Hm. unfold outdoor_nutrient, outdoor_production. cbv zeta.
+    rewrite !nthq_map by (rewrite crops_produced_length; exact Hm). ring.
+  Qed.
+
+  Lemma outdoor_nutrient_homogeneous : forall c g nb k m, (m < cN c)%nat ->
+    nthq (outdoor_nutrient pw c g (k * nb)) m == k * nthq (outdoor_nutrient pw c g nb) m.
+  Proof. intros. rewrite !outdoor_nutrient_nth by assumption. rewrite og_fraction_homogeneous. ring. Qed.
+
+  Lemma outdoor_nutrient_nonneg : forall c g nb m,
+    0 <= cbase c -> 0 <= nb ->
+    all_nonneg (months_cycle c) -> exp_ok c -> 1 <= carea c -> (m < cN c)%nat ->
+    (gadd g = true -> 42 <= cN c)%nat -> 0 <= total_crop_area g -> 0 <= gmult g -> gmult g <= 1 -> waste_ok c ->
+    0 <= nthq (outdoor_nutrient pw c g nb) m.
+  Proof.
+    intros. rewrite outdoor_nutrient_nth by assumption.
+    apply Qmult_le_0_compat; [apply og_fraction_nonneg; assumption|apply production_nonneg; assumption].
+  Qed.
+
+  Lemma greenhouse_nutrient_length : forall c g nb rr, (gadd g = true -> 42 <= cN c)%nat ->
+    List.length (greenhouse_nutrient pw c g nb rr) = cN c.
+  Proof.
+    intros c g nb rr H. unfold greenhouse_nutrient. destruct (Qeq_bool (gfrac g) 0); [apply rep_length|].
+    destruct (gadd g) eqn:E; [|apply rep_length]. cbv zeta.
+    rewrite map2_length, map_length, gh_per_ha_length, greenhouse_area_length by (rewrite E; exact H).
+    apply Nat.min_id.
+  Qed.
+
+  Lemma greenhouse_nutrient_nth : forall c g nb rr m, (gadd g = true -> 42 <= cN c)%nat -> (m < cN c)%nat ->
+    nthq (greenhouse_nutrient pw c g nb rr) m == rotation_ratio c nb rr * nthq (greenhouse_kcals pw c g) m.
+  Proof.
+    intros c g nb rr m H Hm. unfold greenhouse_nutrient, greenhouse_kcals.
+    destruct (Qeq_bool (gfrac g) 0); [rewrite !rep_nth by exact Hm; ring|].
+    destruct (gadd g) eqn:E; [|rewrite !rep_nth by exact Hm; ring]. cbv zeta.
+    rewrite !map2_nth by (rewrite ?map_length, ?gh_per_ha_length, ?greenhouse_area_length; try exact Hm; rewrite E; exact H).
+    rewrite !nthq_map by (rewrite gh_per_ha_length; exact Hm). ring.
+  Qed.
+End Nutrients.
+
+Lemma scp_nutrient_length : forall conv k, List.length (scp_nutrient conv k) = List.length k.
+Proof. intros. unfold scp_nutrient. apply map_length. Qed.
+
+Lemma scp_nutrient_nth : forall conv k m, (m < List.length k)%nat -> nthq (scp_nutrient conv k) m = nthq k m * conv.
+Proof. intros. unfold scp_nutrient. apply (nthq_map (fun x => x * conv)). assumption. Qed.
+
+Lemma scp_conversions_positive : 0 < scp_fat_conversion /\ 0 < scp_protein_conversion.
+Proof. split; vm_compute; reflexivity. Qed.
+
+Lemma cs_nutrient_zero : forall k, List.length (cs_nutrient k) = List.length k /\ forall m, nthq (cs_nutrient k) m == 0.
+Proof.
+  intro k. split; [apply map_length|]. intro m. destruct (Nat.lt_ge_cases m (List.length k)) as [L|L].
+  - unfold cs_nutrient. rewrite (nthq_map (fun _ => 0)) by exact L. reflexivity.
+  - rewrite nthq_overflow by (unfold cs_nutrient; rewrite map_length; exact L). reflexivity.
+Qed.
+
+Lemma fish_nutrient_length : forall add n a wd wr pct, (n <= List.length pct)%nat ->
+  List.length (fish_nutrient_series add n a wd wr pct) = n.
+Proof. intros. unfold fish_nutrient_series. destruct add; rewrite map_length, firstn_length; lia. Qed.
+
+Lemma fish_nutrient_nth : forall n a wd wr pct m, (n <= List.length pct)%nat -> (m < n)%nat ->
+  nthq (fish_nutrient_series true n a wd wr pct) m ==
+  a / 1000 / 12 * ((1 - wd / 100) * (1 - wr / 100)) * (nthq pct m / 100).
+Proof.
+  intros n a wd wr pct m Hl Hm. unfold fish_nutrient_series.
+  rewrite nthq_map by (rewrite firstn_length; lia). rewrite nthq_firstn by exact Hm.
+  unfold fish_nutrient_monthly. field.
+Qed.
+
+Lemma fish_nutrient_homogeneous : forall add n a wd wr pct k m, (n <= List.length pct)%nat -> (m < n)%nat ->
+  nthq (fish_nutrient_series add n (k * a) wd wr pct) m == k * nthq (fish_nutrient_series add n a wd wr pct) m.
+Proof.
+  intros add n a wd wr pct k m Hl Hm. destruct add.
+  - rewrite !fish_nutrient_nth by assumption. field.
+  - unfold fish_nutrient_series. rewrite !nthq_map by (rewrite firstn_length; lia). ring.
+Qed.
+
+Lemma fish_factor_nonneg : forall x wd wr p, 0 <= x -> 0 <= wd -> wd <= 100 -> 0 <= wr -> wr <= 100 -> 0 <= p ->
+  0 <= x * ((1 - wd / 100) * (1 - wr / 100)) * (p / 100).
+Proof.
+  intros x wd wr p Hx A B C D Hp.
+  pose proof (wastefactor_nonneg wd A B). pose proof (wastefactor_nonneg wr C D).
+  assert (0 <= p / 100) by (apply Qle_shift_div_l; lra).
+  apply Qmult_le_0_compat; [|assumption]. apply Qmult_le_0_compat; [assumption|].
+  apply Qmult_le_0_compat; assumption.
+Qed.
+
+Lemma fish_nutrient_nonneg : forall add n a wd wr pct m, (n <= List.length pct)%nat -> (m < n)%nat ->
+  0 <= a -> 0 <= wd -> wd <= 100 -> 0 <= wr -> wr <= 100 -> all_nonneg pct ->
+  0 <= nthq (fish_nutrient_series add n a wd wr pct) m.
+Proof.
+  intros add n a wd wr pct m Hl Hm Ha A B C D Hp. destruct add.
+  - rewrite fish_nutrient_nth by assumption. apply fish_factor_nonneg; try assumption; [|apply Hp].
+    assert (0 <= a / 1000) by (apply Qle_shift_div_l; lra). apply Qle_shift_div_l; lra.
+  - unfold fish_nutrient_series. rewrite (nthq_map (fun _ => 0)) by (rewrite firstn_length; lia). lra.
+Qed.
+
+Lemma fish_nonneg : forall add n a wd wr pct m, (n <= List.length pct)%nat -> (m < n)%nat ->
+  0 <= a -> 0 <= wd -> wd <= 100 -> 0 <= wr -> wr <= 100 -> all_nonneg pct ->
+  0 <= nthq (fish_series add n a wd wr pct) m.
+Proof.
+  intros add n a wd wr pct m Hl Hm Ha A B C D Hp. destruct add.
+  - rewrite fish_nth by assumption. apply fish_factor_nonneg; try assumption; [|apply Hp].
+    assert (0 <= a * 4000000 / 1000000000) by (apply Qle_shift_div_l; lra). apply Qle_shift_div_l; lra.
+  - unfold fish_series. rewrite (nthq_map (fun _ => 0)) by (rewrite firstn_length; lia). lra.
+Qed.
+
+Lemma demand_nutrient_length : forall n d t, (d <= n)%nat -> List.length (demand_nutrient_series n d t) = n.
+Proof. intros. unfold demand_nutrient_series. rewrite app_length, !rep_length. lia. Qed.
+
+Lemma demand_nutrient_nth : forall n d t m, (m < n)%nat ->
+  nthq (demand_nutrient_series n d t) m == if (m <? d)%nat then t / 12 / 1000 else 0.
+Proof.
+  intros n d t m Hm. unfold demand_nutrient_series.
+  destruct (Nat.ltb_spec m d) as [E|E].
+  - rewrite nthq_app_l by (rewrite rep_length; exact E). rewrite rep_nth by exact E. reflexivity.
+  - rewrite nthq_app_r by (rewrite rep_length; exact E). rewrite rep_length. rewrite rep_nth by lia. reflexivity.
+Qed.
+
+Lemma demand_nutrient_homogeneous : forall n d t k m, (m < n)%nat ->
+  nthq (demand_nutrient_series n d (k * t)) m == k * nthq (demand_nutrient_series n d t) m.
+Proof. intros. rewrite !demand_nutrient_nth by assumption. destruct (m <? d)%nat; field. Qed.
+
+Lemma demand_nonneg : forall n d py m, (m < n)%nat -> 0 <= py ->
+  0 <= nthq (demand_series n d py) m /\ 0 <= nthq (demand_nutrient_series n d py) m.
+Proof.
+  intros n d py m Hm Hp. rewrite demand_nth, demand_nutrient_nth by assumption.
+  assert (0 <= py / 12) by (apply Qle_shift_div_l; lra).
+  assert (0 <= py / 12 * 4000000 / 1000000000) by (apply Qle_shift_div_l; lra).
+  assert (0 <= py / 12 / 1000) by (apply Qle_shift_div_l; lra).
+  destruct (m <? d)%nat; split; lra.
 Qed.
